@@ -1,1 +1,3 @@
--- placeholder
+import LowProofs.Lemmas.Bits
+import LowProofs.Lemmas.Count
+import LowProofs.Props.C01
